@@ -8,8 +8,16 @@ import (
 	"crypto/cipher"
 	"encoding/binary"
 	"fmt"
+	"go/ast"
+	"go/parser"
+	"go/token"
 	"io"
+	"io/fs"
 	"log/slog"
+	"os"
+	"path/filepath"
+	"sort"
+	"strings"
 	"sync"
 	"sync/atomic"
 	"testing"
@@ -67,8 +75,88 @@ func (a *recAEAD) Open(dst, nonce, ciphertext, ad []byte) ([]byte, error) {
 	return a.inner.Open(dst, nonce, ciphertext, ad)
 }
 
+// callSites enumerates, over the whole repository (non-test, non-verif files), every call of
+// EncryptDanger, NextMessageCounter and of a mutating method of a `messageCounter` field, as
+// `<enclosing function>:<callee>`, sorted. The send-side model covers exactly the listed set.
+func callSites() string {
+	root := os.Getenv("VERIF_REPO")
+	if root == "" {
+		root = "/repo"
+	}
+	set := map[string]bool{}
+	fset := token.NewFileSet()
+	filepath.WalkDir(root, func(path string, d fs.DirEntry, err error) error {
+		if err != nil {
+			return nil
+		}
+		if d.IsDir() {
+			if strings.HasPrefix(d.Name(), ".") && path != root {
+				return filepath.SkipDir
+			}
+			return nil
+		}
+		name := d.Name()
+		if !strings.HasSuffix(name, ".go") || strings.HasSuffix(name, "_test.go") || strings.HasPrefix(name, "verif_") {
+			return nil
+		}
+		f, perr := parser.ParseFile(fset, path, nil, parser.ParseComments)
+		if perr != nil {
+			set["PARSE-ERROR:"+name] = true
+			return nil
+		}
+		for _, cg := range f.Comments {
+			if cg.Pos() < f.Package && strings.Contains(cg.Text(), "go:build") && strings.Contains(cg.Text(), "verif") {
+				return nil
+			}
+		}
+		for _, decl := range f.Decls {
+			fd, ok := decl.(*ast.FuncDecl)
+			if !ok || fd.Body == nil {
+				continue
+			}
+			fn := fd.Name.Name
+			if fd.Recv != nil && len(fd.Recv.List) > 0 {
+				t := fd.Recv.List[0].Type
+				if st, ok := t.(*ast.StarExpr); ok {
+					t = st.X
+				}
+				if id, ok := t.(*ast.Ident); ok {
+					fn = id.Name + "." + fn
+				}
+			}
+			ast.Inspect(fd.Body, func(n ast.Node) bool {
+				call, ok := n.(*ast.CallExpr)
+				if !ok {
+					return true
+				}
+				sel, ok := call.Fun.(*ast.SelectorExpr)
+				if !ok {
+					return true
+				}
+				switch sel.Sel.Name {
+				case "EncryptDanger", "NextMessageCounter":
+					set[fn+":"+sel.Sel.Name] = true
+				case "Add", "Store", "Swap", "CompareAndSwap", "And", "Or":
+					if inner, ok := sel.X.(*ast.SelectorExpr); ok && inner.Sel.Name == "messageCounter" {
+						set[fn+":messageCounter."+sel.Sel.Name] = true
+					}
+				}
+				return true
+			})
+		}
+		return nil
+	})
+	var out []string
+	for k := range set {
+		out = append(out, k)
+	}
+	sort.Strings(out)
+	return strings.Join(out, ",")
+}
+
 func gen(r *hlib.Rand, n int, tier, profile string, emit func(string, ...any)) {
-	ops := 0
+	emit("callsites")
+	ops := 1
 	base := 0 // thread ids are never reused across cases (they are arbitrary naturals)
 	for ops < n {
 		lock := r.Chance(1, 3)
@@ -229,6 +317,9 @@ func newExec(t *testing.T) func([]string) string {
 		return sealed(before)
 	}
 	return func(a []string) string {
+		if a[0] == "callsites" {
+			return callSites()
+		}
 		if a[0] == "reset" {
 			c0 := hlib.Atou(a[1])
 			lockMode = a[2] == "1"
